@@ -182,3 +182,57 @@ Definition gate (st : store) (V : list string) (strict : bool) : gate_result :=
   | [] => Pass
   | ns => if strict then Raise ns else Warn ns
   end.
+
+(* ---- Solution handles (solution.py __getitem__, _get_vector, _get_matrix) ---- *)
+Fixpoint lookup_val (vals : list (string * Q)) (n : string) : option Q :=
+  match vals with
+  | [] => None
+  | (k, v) :: r => if String.eqb k n then Some v else lookup_val r n
+  end.
+(* sol[vec] : values of the vector's elements in the vector's own order *)
+Definition get_vector (vals : list (string * Q)) (names : list string) : list (option Q) :=
+  map (lookup_val vals) names.
+(* sol[mat] : row-major, shape of the handle *)
+Definition get_matrix (vals : list (string * Q)) (rows : list (list string)) : list (list (option Q)) :=
+  map (get_vector vals) rows.
+
+(* ---- the whole of Problem.solve up to the oracle call: validation, gate ---- *)
+Inductive solve_result :=
+| SNoObjective
+| SNonLinear                         (* solve_lp on a model that is not linear *)
+| SNoVariables                       (* solve_scipy: "Problem has no variables" -> FAILED, no oracle call *)
+| SInteger (names : list string)     (* IntegerVariableError(variable_names) *)
+| SRan (warned : list string) (r : route).   (* the oracle is called (after a warning naming [warned], if non-empty) *)
+
+Definition solve_front (has_obj is_lp : bool) (auto_nlp : string) (st : store) (V : list string)
+           (method : string) (strict : bool) : solve_result :=
+  if negb has_obj then SNoObjective
+  else
+    let r := route_of is_lp auto_nlp method in
+    match r with
+    | RouteLP _ =>
+        if negb is_lp then SNonLinear
+        else match gate st V strict with
+             | Raise ns => SInteger ns
+             | Warn ns => SRan ns r
+             | Pass => SRan [] r
+             end
+    | RouteScipy _ =>
+        match V with
+        | [] => SNoVariables
+        | _ => match gate st V strict with
+               | Raise ns => SInteger ns
+               | Warn ns => SRan ns r
+               | Pass => SRan [] r
+               end
+        end
+    end.
+
+Definition oracle_called (r : solve_result) : bool := match r with SRan _ _ => true | _ => false end.
+
+(* Variable.__init__: binary variables carry the bounds [0, 1] whatever was passed *)
+Definition declare (lb ub : option Q) (d : domain) : vattr :=
+  match d with
+  | Binary => {| Vars.lb := Some 0; Vars.ub := Some 1; vdom := Binary |}
+  | _ => {| Vars.lb := lb; Vars.ub := ub; vdom := d |}
+  end.
